@@ -502,6 +502,67 @@ def args_worker(_):
     except ImportError:
         pass
 
+    # ---- objects keep no reference to caller buffers: overwriting a buffer AFTER it was handed to a constructor / update() must not
+    #      change what the object computes later (the expected value comes from a fresh object built from pristine copies)
+    def late_mutation(label, factory, op, *bufs):
+        acc.count("transitions", 2)
+        acc.count("states")
+        try:
+            exp = op(factory(*[bytes(b) for b in bufs]))
+            obj = factory(*bufs)
+            for b in bufs:
+                b[:] = bytes([0xFF ^ x for x in b])
+            got = op(obj)
+        except Exception as e:  # noqa
+            acc.observe("late-mutation monitor: %s raised %s: %s" % (label, type(e).__name__, e))
+            return
+        acc.seen("argcalls", "late:" + label)
+        if bytes(got) != bytes(exp):
+            acc.violation("C19/object-follows-caller-buffer/%s" % label,
+                          "%s: the object still refers to a buffer of its caller: after the caller overwrote the buffer it had passed in, "
+                          "the object computes %s instead of %s" % (label, short(bytes(got)), short(bytes(exp))), {"part": "args", "label": "late:" + label})
+    M33 = bytes(range(33))
+    for mname, kw in (("CBC", "iv"), ("CFB", "iv"), ("OFB", "iv"), ("CTR", "nonce"), ("GCM", "nonce"), ("EAX", "nonce"), ("OCB", "nonce"),
+                      ("CCM", "nonce"), ("SIV", "nonce")):
+        n = {"CBC": 16, "CFB": 16, "OFB": 16, "CTR": 8, "GCM": 12, "EAX": 16, "OCB": 15, "CCM": 11, "SIV": 16}[mname]
+        klen = 32 if mname == "SIV" else 16
+        aead = mname in ("GCM", "EAX", "OCB", "CCM", "SIV")
+        mode = getattr(AES, "MODE_" + mname)
+        late_mutation("AES-%s.new(key, %s)" % (mname, kw), lambda k, v, mode=mode, kw=kw: AES.new(k, mode, **{kw: v}),
+                      (lambda c: b"".join(c.encrypt_and_digest(M33))) if aead else (lambda c: c.encrypt(bytes(48))), ba(klen, 1), ba(n, 40))
+        if aead:
+            def _upd(k, a, mode=mode, n=n):
+                c = AES.new(k, mode, nonce=bytes(n))
+                c.update(a)
+                return c
+            late_mutation("AES-%s.update(aad)" % mname, _upd, lambda c: b"".join(c.encrypt_and_digest(M33)), ba(klen, 1), ba(21, 7))
+    late_mutation("ChaCha20.new(key, nonce)", lambda k, n: ChaCha20.new(key=k, nonce=n), lambda c: c.encrypt(bytes(70)), ba(32, 1), ba(12, 50))
+    late_mutation("Salsa20.new(key, nonce)", lambda k, n: Salsa20.new(k, n), lambda c: c.encrypt(bytes(70)), ba(32, 1), ba(8, 50))
+    late_mutation("ChaCha20_Poly1305.new(key, nonce)", lambda k, n: ChaCha20_Poly1305.new(key=k, nonce=n), lambda c: b"".join(c.encrypt_and_digest(M33)), ba(32, 1), ba(12, 50))
+    late_mutation("DES3.new(key, iv)", lambda k, v: DES3.new(k, DES3.MODE_CBC, iv=v), lambda c: c.encrypt(bytes(24)),
+                  bytearray(DES3.adjust_key_parity(bytes(range(1, 25)))), ba(8, 60))
+    late_mutation("Blowfish.new(key)", lambda k: Blowfish.new(k, Blowfish.MODE_ECB), lambda c: c.encrypt(bytes(16)), ba(9, 1))
+    late_mutation("ARC4.new(key)", lambda k: ARC4.new(k), lambda c: c.encrypt(bytes(40)), ba(9, 1))
+    late_mutation("HMAC.new(key, msg)", lambda k, m: HMAC.new(k, m, SHA256), lambda h: h.digest(), ba(20, 1), ba(50, 3))
+    late_mutation("CMAC.new(key, msg)", lambda k, m: CMAC.new(k, m, ciphermod=AES), lambda h: h.digest(), ba(16, 1), ba(21, 3))
+    late_mutation("KMAC128.new(key, data, custom)", lambda k, m, c: KMAC128.new(key=k, data=m, mac_len=16, custom=c), lambda h: h.digest(), ba(20, 1), ba(50, 3), ba(5, 9))
+    late_mutation("BLAKE2b.new(key, data)", lambda k, m: BLAKE2b.new(key=k, data=m, digest_bytes=32), lambda h: h.digest(), ba(20, 1), ba(50, 3))
+    late_mutation("BLAKE2s.new(key, data)", lambda k, m: BLAKE2s.new(key=k, data=m, digest_bytes=16), lambda h: h.digest(), ba(20, 1), ba(50, 3))
+    late_mutation("Poly1305.new(key, nonce, data)", lambda k, n, m: Poly1305.new(key=k, cipher=AES, nonce=n, data=m), lambda h: h.digest(), ba(32, 1), ba(16, 70), ba(50, 3))
+    # (only parameters DOCUMENTED as bytes/bytearray/memoryview are overwritten: the customisation strings of cSHAKE / KangarooTwelve /
+    #  TupleHash, the EdDSA context, Counter prefix/suffix and the seed of ECC.construct are documented as bytes)
+    late_mutation("cSHAKE128.new(data)", lambda m: cSHAKE128.new(data=m, custom=b"cust"), lambda h: h.read(20), ba(50, 3))
+    late_mutation("KangarooTwelve.new(data)", lambda m: KangarooTwelve.new(data=m, custom=b"cust"), lambda h: h.read(20), ba(50, 3))
+    late_mutation("TupleHash128.update(a, b)", lambda a, b: TupleHash128.new().update(a, b), lambda h: h.digest(), ba(20, 3), ba(30, 9))
+    late_mutation("TurboSHAKE128.new(data)", lambda m: TurboSHAKE128.new(data=m), lambda h: h.read(20), ba(200, 3))
+    for hname, hmod in (("SHA256", SHA256), ("SHA3_256", SHA3_256), ("MD5", MD5), ("SHAKE256", SHAKE256)):
+        def _hu(m, hmod=hmod):
+            h = hmod.new()
+            h.update(m)
+            return h
+        late_mutation("%s.update(data)" % hname, _hu, lambda h: h.read(20) if hasattr(h, "read") else h.digest(), ba(100, 3))
+    late_mutation("PKCS1_OAEP.new(label)", lambda lab: PKCS1_OAEP.new(rk, label=lab, randfunc=Stream("lm")), lambda c: c.encrypt(b"msg"), ba(7, 1))
+
     # ---- objects derived from a key are independent of it: updating the point of the public key in place does not reach the private key
     for c in ("p256", "p384", "ed25519", "ed448", "curve25519", "curve448"):
         acc.count("transitions", 3)
